@@ -152,6 +152,9 @@ func writtenStages(s *logql_parser.LogQLScript, shortcut bool) (matrix []string,
 	if agg != nil {
 		if g := groupingName(agg.ByOrWithoutPrefix, agg.ByOrWithoutSuffix); g != "" {
 			matrix = append(matrix, g)
+		} else {
+			// no grouping clause = by (): everything into the series of the empty label set
+			matrix = append(matrix, "ByWithoutPlanner(true:)")
 		}
 		matrix = append(matrix, "AggOpPlanner("+agg.Fn+")")
 		cmp(agg.Comparison)
